@@ -143,7 +143,7 @@ def run(ctx):
                 'same in-memory results vs on the file. a case = one fit() run or one post-processing comparison; non-trivial = >=2 records or >=2 calls')
     ctx.assume('records are compared bit-exact NaN-aware with an independent Fitter(...).fit on the same line',
                'a run that writes no record is not generated (zero-byte file: nothing claimed)', 'filter_output is not driven on files holding a record with zero selected fits (no best chi^2 to classify)', 'plot_params_1d/2d (PNG renderers) only in the thorough tier')
-    ctx.require_events('trace:fit-run', 'record:compared', 'meta:compared', 'forms:file-vs-list', 'forms:file-vs-object', 'sequence:compared', 'unchanged:checked')
+    ctx.require_events('trace:fit-run', 'record:compared', 'meta:compared', 'forms:file-vs-list', 'forms:file-vs-object', 'sequence:compared', 'unchanged:checked', 'sequence:written-then-read')
     ctx.require_regimes('skipped-sources', 'output_convolved', 'no-output_convolved', 'mode:2d', 'mode:3d', 'style:v1', 'style:v2')
     n_runs = 5 if ctx.quick else 60
     funcs = ['write_parameters', 'write_parameter_ranges', 'extract_parameters', 'filter_output', 'plot']
@@ -296,6 +296,45 @@ def run(ctx):
                 ctx.violation('file:meta-not-attached', 'a record does not carry the shared metadata', wit0)
         ctx.case(('fit', irun, ctx.shard), nontrivial=len(recs) >= 2, sample=dict(wit0, written=[e[1] for e in written]))
 
+        # ---- sequences of records written then read, re-using objects that change in between --------
+        seqp = os.path.join(d, 'seq.out')
+        try:
+            fo = FitInfoFile(seqp, 'w')
+            want = []
+            so = Source.from_ascii(lines[eligible[0]])
+            inf = fitter.fit(so)
+            fo.write(inf)
+            want.append(probe.canon_info(inf))
+            inf.keep(('N', 2))                       # the same result object, selected further, written again
+            fo.write(inf)
+            want.append(probe.canon_info(inf))
+            so.name = so.name + '_edited'            # the same Source object, edited and re-fitted
+            so.flux = np.asarray(so.flux) * 1.7
+            inf2 = fitter.fit(so)
+            fo.write(inf2)
+            want.append(probe.canon_info(inf2))
+            for i_ in eligible[1:3]:                 # followed by ordinary records
+                inf3 = fitter.fit(Source.from_ascii(lines[i_]))
+                fo.write(inf3)
+                want.append(probe.canon_info(inf3))
+            fo.close()
+            fin2 = FitInfoFile(seqp, 'r')
+            back = [probe.canon_info(x) for x in fin2]
+            fin2.close()
+            ctx.event('sequence:written-then-read')
+            if len(back) != len(want):
+                ctx.violation('sequence:record-count', 'a sequence of records written then read returns a different number of records',
+                              dict(wit0, written=len(want), read=len(back)))
+            else:
+                for iw, (a_, b_) in enumerate(zip(want, back)):
+                    dd_ = probe.same_canon(a_, b_)
+                    if dd_:
+                        ctx.violation('sequence:record-differs', 'a record read back differs from the record as it was when written (objects re-used between writes): %s' % dd_,
+                                      dict(wit0, record=iw, written_name=a_['source']['name'], read_name=b_['source']['name'],
+                                           written_n=len(a_['chi2']), read_n=len(b_['chi2'])))
+                        break
+        except Exception as exc:
+            ctx.violation('sequence:raised', 'writing/reading a sequence of records raised: %r' % (exc,), wit0)
         # ---- post-processing: three forms ----------------------------------------------
         post = Post(ctx, d)
         sels = [('A', 0), ('N', 1), ('N', 2), ('N', 3), ('F', 1e6), ('C', 1e-9), ('D', 3.7), ('E', 2.3)]
